@@ -548,9 +548,10 @@ class Host:
             for obj, attr, old in reversed(saved):
                 setattr(obj, attr, old)
             self.close_inotifies()
+            # (also when the start ends with an exception the caller expects, e.g. a host that does not resolve)
+            c.sockets = captured.get('sockets', [])
+            c.vip = (manifest.get('network') or {}).get('vip') or self.vips.get(unique_name)
         self.started_via_run = getattr(self, 'started_via_run', 0) + 1
-        c.sockets = captured.get('sockets', [])
-        c.vip = self.vips.get(unique_name)
         state = os.path.join(container_dir, 'state.json')
         if os.path.exists(state):
             with open(state) as f:
